@@ -63,6 +63,11 @@ struct Block {
   int id;
 };
 static bool g_track = false;
+// E5 only: every malloc'ed block is handed out filled with 0xAB (malloc returns memory with arbitrary
+// content: a conforming, adversarial allocator), so that an element the arena hands out WITHOUT
+// initialising it is observable instead of accidentally zero on a fresh heap page.  Thread-safe: the
+// block is not shared yet.
+static bool g_dirtyHeap = false;
 static int g_nextBuf = 0, g_nextTab = 0;
 static std::map<char*, Block> g_blocks; // raw malloc pointer -> block (alignedMalloc buffers)
 static std::map<char*, Block> g_tabs; // new[] pointer -> table
@@ -76,6 +81,8 @@ static char* blockBase(char* raw) {
 
 extern "C" void* __wrap_malloc(size_t n) {
   void* p = __real_malloc(n);
+  if (g_dirtyHeap && p)
+    memset(p, 0xAB, n);
   if (g_track && p) {
     memset(p, 0xEE, n);
     g_blocks[(char*)p] = Block{n, g_nextBuf++};
@@ -685,7 +692,7 @@ execute(const Program& prog, const ctl::RunOptions& base, ctl::Trace& tr, const 
 
 // ------------------------------------------------------------------------------------------ E5
 // Free-running rounds.  No ctl::Controller exists (every DISPENSO_VERIF_POINT is inert) and g_track is
-// off (malloc / new[] pass through), so the growers race inside what the controlled engines treat as
+// off (malloc only fills the block with 0xAB, see g_dirtyHeap; new[] passes through), so the growers race inside what the controlled engines treat as
 // one atomic step - in particular inside the resizeMutex_ section and the compare-exchange of grow_by.
 // A record holds what a user of the public API can observe: what every grow_by returned and size()
 // after it (per-thread program order), and after the join size(), capacity(), numBuffers(), the
@@ -718,6 +725,42 @@ struct SElem {
 static_assert(std::is_trivially_copyable<SElem>::value, "SElem must be trivially copyable");
 using SArena = dispenso::ConcurrentObjectArena<SElem, size_t, kAlign>;
 
+// Element types WITHOUT a user-provided default constructor.  The arena constructs its elements with
+// `new (p) T()`: value-initialisation, which for such a T zero-initialises the object, so "every element
+// grow_by (and the initialSize constructor) hands out is default-constructed" means: it equals T(),
+// whatever the heap block held before.  SElem above cannot see this (its constructor sets the fields);
+// the heap is dirty (g_dirtyHeap, and every handed-out plain element is overwritten with a non-zero
+// value before its arena is freed).  In every round each grower repeats its grow_by program on an
+// arena of int and an arena of Pod (same minBuffSize / initialSize, concurrently with the others) and
+// counts the handed-out elements that differ from T() ("nz" per grower, "nz0" for the initialSize
+// elements checked by the constructing thread).
+struct Pod {
+  int a;
+  unsigned b;
+  double c;
+};
+static_assert(std::is_trivial<Pod>::value && sizeof(Pod) == 16, "Pod: plain aggregate without padding");
+using IArena = dispenso::ConcurrentObjectArena<int>;
+using PArena = dispenso::ConcurrentObjectArena<Pod>;
+
+// number of non-zero bytes of the object (T() of int / Pod is all-zero bytes); reads through a
+// volatile pointer in a non-inlined function: the comparison is done on what is in memory
+__attribute__((noinline)) bool allZero(const void* p, size_t n) {
+  const volatile unsigned char* c = static_cast<const volatile unsigned char*>(p);
+  unsigned acc = 0;
+  for (size_t i = 0; i < n; ++i)
+    acc |= c[i];
+  return acc == 0;
+}
+inline void dirty(int& e, int tag) {
+  e = tag | 0x40000000;
+}
+inline void dirty(Pod& e, int tag) {
+  e.a = tag | 0x40000000;
+  e.b = 0xCDCDCDCDu;
+  e.c = 1.5;
+}
+
 struct SOp {
   long long n = 0; // delta
   int v = 0; // value tag: worker * 100000 + op index * 100; element j of the range gets v + j
@@ -729,6 +772,7 @@ struct Work {
   SOp ops[kMaxOps];
   int spin = 0;
   long long mis = 0;
+  long long nz = 0; // elements of int / Pod arenas handed out by grow_by that differ from T()
   int nsaved = 0;
   long long savedIdx[kMaxOps * kMaxDelta];
   SElem* savedPtr[kMaxOps * kMaxDelta];
@@ -748,6 +792,8 @@ struct Shared {
   std::atomic<long long> beat{0};
   std::atomic<long long> round{0};
   SArena* arena = nullptr;
+  IArena* iarena = nullptr;
+  PArena* parena = nullptr;
   int growers = 0;
   Work w[kMaxGrowers];
 };
@@ -775,6 +821,27 @@ constexpr unsigned long long kStartDelayTicks = 2000;
 inline void relax(unsigned& n) {
   if ((++n & 0xffff) == 0)
     sched_yield();
+}
+
+// the grower's program on an arena of a plain element type: only "equals T()" is observed here (the
+// ranges are validated on the SElem arena); a range that is not inside [0, size()) is not dereferenced
+template <class A>
+void plainGrower(A& ar, Work& w) {
+  for (int i = 0; i < w.nops; ++i) {
+    const SOp& o = w.ops[i];
+    size_t p = ar.grow_by((size_t)o.n);
+    size_t s = ar.size();
+    if (p + (size_t)o.n > s || p > (size_t)kMaxData) {
+      ++w.mis;
+      continue;
+    }
+    for (long long j = 0; j < o.n; ++j) {
+      auto& e = ar[p + (size_t)j];
+      if (!allZero(&e, sizeof e))
+        ++w.nz;
+      dirty(e, o.v + (int)j);
+    }
+  }
 }
 
 void grower(SArena& ar, Work& w) {
@@ -829,8 +896,11 @@ void workerMain(int w) {
       relax(spins);
     while (ticks() < at) {
     }
-    if (w < g_sh.growers)
+    if (w < g_sh.growers) {
       grower(*g_sh.arena, g_sh.w[w]);
+      plainGrower(*g_sh.iarena, g_sh.w[w]);
+      plainGrower(*g_sh.parena, g_sh.w[w]);
+    }
     g_sh.done.fetch_add(1, std::memory_order_acq_rel);
   }
 }
@@ -872,6 +942,7 @@ int run(const drv::Args& a) {
   if (!g_out)
     return 2;
   long long rounds = a.num("stress", 1000);
+  g_dirtyHeap = true;
   uint64_t rng = (uint64_t)a.num("seed", 1) * 0x9e3779b97f4a7c15ULL + 37;
   auto rnd = [&](int n) { return (int)(ctl::splitmix(rng) % (uint64_t)n); };
   std::vector<std::thread> workers;
@@ -888,6 +959,7 @@ int run(const drv::Args& a) {
       Work& wk = g_sh.w[t];
       wk.nops = 0;
       wk.mis = 0;
+      wk.nz = 0;
       wk.nsaved = 0;
       wk.spin = rnd(8) == 0 ? rnd(300) : rnd(24);
       int nops = 1 + rnd(kMaxOps);
@@ -908,7 +980,20 @@ int run(const drv::Args& a) {
     SArena* ar = new SArena((size_t)mb, (size_t)n0);
     for (int i = 0; i < n0; ++i)
       (*ar)[(size_t)i].val = (unsigned)(i + 1);
+    IArena* iar = new IArena((size_t)mb, (size_t)n0);
+    PArena* par = new PArena((size_t)mb, (size_t)n0);
+    long long nz0 = 0;
+    for (int i = 0; i < n0; ++i) {
+      if (!allZero(&(*iar)[(size_t)i], sizeof(int)))
+        ++nz0;
+      if (!allZero(&(*par)[(size_t)i], sizeof(Pod)))
+        ++nz0;
+      dirty((*iar)[(size_t)i], i + 1);
+      dirty((*par)[(size_t)i], i + 1);
+    }
     g_sh.arena = ar;
+    g_sh.iarena = iar;
+    g_sh.parena = par;
     g_sh.growers = growers;
     g_sh.arrived.store(0, std::memory_order_relaxed);
     g_sh.startAt.store(0, std::memory_order_relaxed);
@@ -939,15 +1024,16 @@ int run(const drv::Args& a) {
     snprintf(
         b,
         sizeof b,
-        "{\"e\":\"Arena\",\"round\":%lld,\"stuck\":0,\"mb\":%d,\"bs\":%lld,\"n0\":%d,\"thr\":[",
+        "{\"e\":\"Arena\",\"round\":%lld,\"stuck\":0,\"mb\":%d,\"bs\":%lld,\"n0\":%d,\"nz0\":%lld,\"thr\":[",
         r,
         mb,
         clip(bs),
-        n0);
+        n0,
+        nz0);
     s += b;
     for (int t = 0; t < growers; ++t) {
       const Work& w = g_sh.w[t];
-      snprintf(b, sizeof b, "%s{\"mis\":%lld,\"ops\":[", t ? "," : "", clip(w.mis));
+      snprintf(b, sizeof b, "%s{\"mis\":%lld,\"nz\":%lld,\"ops\":[", t ? "," : "", clip(w.mis), clip(w.nz));
       s += b;
       for (int k = 0; k < w.nops; ++k) {
         const SOp& o = w.ops[k];
@@ -986,6 +1072,8 @@ int run(const drv::Args& a) {
     s += cx;
     s += "]}\n";
     delete ar;
+    delete iar;
+    delete par;
     {
       std::lock_guard<std::mutex> lk(g_outMu);
       fwrite(s.data(), 1, s.size(), g_out);
